@@ -6,6 +6,7 @@ package service
 
 import (
 	gocontext "context"
+	goerrors "errors"
 	"time"
 
 	mqtt "github.com/eclipse/paho.mqtt.golang"
@@ -22,12 +23,12 @@ import (
 
 // ---- recording MQTT client -------------------------------------------------
 
-type vfToken struct{}
+type vfToken struct{ err error }
 
-func (vfToken) Wait() bool                       { return true }
-func (vfToken) WaitTimeout(time.Duration) bool   { return true }
-func (vfToken) Done() <-chan struct{}            { return nil }
-func (vfToken) Error() error                     { return nil }
+func (vfToken) Wait() bool                     { return true }
+func (vfToken) WaitTimeout(time.Duration) bool { return true }
+func (vfToken) Done() <-chan struct{}          { return nil }
+func (t vfToken) Error() error                 { return t.err }
 
 type vfPublished struct {
 	Topic   string
@@ -37,6 +38,7 @@ type vfPublished struct {
 type vfMqtt struct {
 	Published []vfPublished
 	broker    *vfBroker // nil: recording only
+	refuse    bool      // the broker refuses topic subscriptions (environment fault)
 }
 
 // vfBroker is the in-process stand-in of the MQTT broker: every publish is
@@ -85,6 +87,9 @@ func (m *vfMqtt) Publish(topic string, qos byte, retained bool, payload interfac
 	return vfToken{}
 }
 func (m *vfMqtt) Subscribe(topic string, qos byte, callback mqtt.MessageHandler) mqtt.Token {
+	if m.refuse {
+		return vfToken{err: errRefused}
+	}
 	if m.broker != nil {
 		m.broker.subs = append(m.broker.subs, vfSub{topic: topic, cb: callback, cli: m})
 	}
@@ -96,6 +101,8 @@ func (m *vfMqtt) SubscribeMultiple(filters map[string]byte, callback mqtt.Messag
 func (m *vfMqtt) Unsubscribe(topics ...string) mqtt.Token       { return vfToken{} }
 func (m *vfMqtt) AddRoute(topic string, callback mqtt.MessageHandler) {}
 func (m *vfMqtt) OptionsReader() mqtt.ClientOptionsReader       { return mqtt.ClientOptionsReader{} }
+
+var errRefused = goerrors.New("subscription refused by the broker")
 
 // ---- world -------------------------------------------------------------------
 
